@@ -204,7 +204,11 @@ pub fn c02(a: &Args) -> CaseSet {
                      Prog::Compile(Box::new(Prog::Compile(Box::new(Prog::FlatWo(text.clone()))))), Prog::Compile(Box::new(Prog::Flat(text.clone()))),
                      Prog::ToFlat(Box::new(Prog::Deep(text.clone()))), Prog::ToDeep(Box::new(Prog::FlatWo(text.clone())))];
         let pick = [i % 7, (i / 7 + 2) % 7, (i + 4) % 7];
-        for k in pick { add_expect(&mut cs, &tb, progs[k].clone(), vec![Query::Vars, Query::Eval(nv), Query::Unparse], text.clone(), "literal-rich-tree", n_operands(&ch), &want, &vars); }
+        for k in pick {
+            // the flat forms also through the consuming evaluation (eval_vec): unfolded literals still carry their unary operators
+            let qs = if k == 2 || k == 6 { vec![Query::Vars, Query::Eval(nv), Query::Unparse] } else { vec![Query::Vars, Query::Eval(nv), Query::Unparse, Query::EvalVec(nv)] };
+            add_expect(&mut cs, &tb, progs[k].clone(), qs, text.clone(), "literal-rich-tree", n_operands(&ch), &want, &vars);
+        }
     }
     // long levels with folds: more than 64 operators before folding, literal products at the front, at the back and at
     // random places (operator indices 64 apart, one folded and one not)
@@ -530,6 +534,21 @@ pub fn c07(a: &Args) -> CaseSet {
         for prog in [Prog::Flat(text.into()), Prog::FlatWo(text.into()), Prog::Deep(text.into())] {
             cs.add(&t0, prog, vec![Query::Vars], format!("corpus: {text:?}"), "corpus", 2, |obs| (Some(obs[0] == Obs::E), format!("accepted or crashed: {}", pretty_obs(&obs[0]))));
         }
+    }
+    // an operator without an operand in front of a closing parenthesis (a unary-only one, a sign, a binary one), in
+    // surroundings where what follows the parenthesis could be taken for the missing operand
+    for tb in std_tables().iter().take(4) {
+        let unonly: Vec<String> = tb.iter().filter(|o| o.unary && o.bin.is_none()).map(|o| o.repr.clone()).take(4).collect();
+        let signs: Vec<String> = tb.iter().filter(|o| o.unary && o.bin.is_some()).map(|o| o.repr.clone()).take(2).collect();
+        let binonly: Vec<String> = tb.iter().filter(|o| !o.unary && o.bin.is_some() && !o.constant).map(|o| o.repr.clone()).take(2).collect();
+        let follow: Vec<String> = signs.iter().chain(binonly.iter()).cloned().collect();
+        for u in unonly.iter().chain(signs.iter()).chain(binonly.iter()) { for f in &follow {
+            for t in [format!("({u}){f}2"), format!("1{f}({u}){f}2"), format!("2{f}({u}){f}1"), format!("(({u}){f}y){f}2"), format!("x{f}({u}){f}(4)"), format!("(1{f}({u}){f}2)"), format!("3{f}({f}{u}){f}x"), format!("({u})"), format!("1{f}({u})")] {
+                for prog in [Prog::Flat(t.clone()), Prog::FlatWo(t.clone()), Prog::Deep(t.clone())] {
+                    cs.add(tb, prog, vec![Query::Vars], format!("[operator-before-closing-paren] {t:?}"), "operator-before-closing-paren", 2, |obs| (Some(obs[0] == Obs::E), format!("accepted or crashed: {}", pretty_obs(&obs[0]))));
+                }
+            }
+        } }
     }
     for _ in 0..a.n {
         let tb = pick_table(&mut r, a);
@@ -1121,6 +1140,35 @@ pub fn c05(a: &Args) -> CaseSet {
     }
     for text in ["abs(x)", "min(x, y)", "floor(x)+x"] {
         cs.add(&tb, Prog::Partial(vec![0], 0, Box::new(Prog::Flat(text.into()))), vec![Query::Vars], format!("corpus: d/dv0 {text}"), "missing-rule", 3, |obs| (Some(obs[0] == Obs::E), pretty_obs(&obs[0])));
+    }
+    // long single levels (22..30 operands) of equal-priority non-commutative operators with one or two tighter ones: the
+    // order in which the value/derivative pairs of a level are combined
+    {
+        let mk = |n: usize, main: &str, tight: &[(usize, &str)]| -> String { let mut t = String::from("v00"); for i in 1..n { let op = tight.iter().find(|(p, _)| *p == i).map(|(_, o)| *o).unwrap_or(main); t.push_str(&format!("{op}v{i:02}")); } t };
+        let texts = vec![mk(22, "-", &[(8, "*")]), mk(26, "-", &[(25, "*")]), mk(24, "/", &[(23, "^")]), mk(23, "-", &[(5, "/"), (17, "*")]), mk(30, "/", &[(9, "*"), (20, "*")])];
+        for (ti, text) in texts.iter().enumerate() {
+            set_table(&tb);
+            use exmex::Express;
+            let fx = FE::parse_wo_compile(Box::leak(text.to_string().into_boxed_str())).unwrap();
+            let vars: Vec<String> = fx.var_names().to_vec(); let nv = vars.len();
+            let f = fx.eval(&symvals(nv)).unwrap();
+            for idx in [0usize, 3, 14, nv - 1] {
+                if !(a.thorough || (ti + idx) % 2 == 0) { continue }
+                let base = if (ti + idx) % 3 == 0 { Prog::Flat(text.clone()) } else { Prog::Deep(text.clone()) };
+                let (tb2, vars2, f2) = (tb.clone(), vars.clone(), f.clone());
+                cs.add(&tb, Prog::Partial(vec![idx], 0, Box::new(base)), vec![Query::Vars, Query::Eval(nv)], format!("long level: d/dv{idx} {text}"), "long-level", nv, move |obs| {
+                    match (&obs[0], &obs[1]) {
+                        (Obs::S(v), Obs::T(d)) => {
+                            if *v != vars2 { return (Some(false), format!("variables {v:?} vs {vars2:?}")) }
+                            let pt: Vec<f64> = (0..vars2.len()).map(|i| 0.8 + 0.07 * ((i * 7) % 11) as f64).collect();
+                            if let Some(want) = num_partial(&f2, &tb2, &pt, idx) { let got = interp(d, &tb2, &pt); if !got.is_finite() || (got - want).abs() > 1e-3 * (1.0 + want.abs()) { return (Some(false), format!("at {pt:?}: derivative expression gives {got}, central differences give {want}")) } }
+                            (Some(true), String::new())
+                        }
+                        _ => (Some(false), format!("{} / {}", pretty_obs(&obs[0]), pretty_obs(&obs[1]))),
+                    }
+                });
+            }
+        }
     }
     for i in 0..a.n {
         let allow_nodiff = i % 9 == 0;
